@@ -168,25 +168,53 @@ func Select(hasDefault bool, cases ...SelCase) int {
 		}
 		return r
 	}
-	pred := func() bool { return len(ready()) > 0 }
-	if hasDefault {
-		pred = nil
-	}
-	s.point(fmt.Sprintf("select(%d)", len(cases)), 0, pred)
+	// The select statement is evaluated when the thread executes it: a pure
+	// scheduling point first.
+	s.point(fmt.Sprintf("select(%d)", len(cases)), 0, nil)
 	if s.aborting {
 		s.unwind(s.cur)
 		return -1
 	}
 	r := ready()
-	if len(r) == 0 {
-		if !hasDefault {
+	k := 0
+	switch {
+	case len(r) > 1:
+		// several cases ready at evaluation time: Go chooses uniformly at random
+		k = s.choose("select", len(r), true, func() string { return fmt.Sprintf("T%d select ready=%v", s.cur.ID, r) })
+	case len(r) == 0 && hasDefault:
+		return -1
+	case len(r) == 0:
+		// The goroutine parks on all its channels. The FIRST operation that
+		// makes one of the cases ready completes the select (direct hand-off
+		// to the parked goroutine); later operations on other channels
+		// cannot change the outcome. The predicate is evaluated after every
+		// single step of any thread, so it sees that first operation.
+		fired := -1
+		caseReady := func(i int) bool {
+			if cases[i].send {
+				return s.sendReady(vs[i], ps[i])
+			}
+			return s.recvReady(vs[i], ps[i])
+		}
+		s.point(fmt.Sprintf("select(%d) parked", len(cases)), 0, func() bool {
+			if fired >= 0 && caseReady(fired) {
+				return true
+			}
+			fired = -1
+			if rr := ready(); len(rr) > 0 {
+				fired = rr[0]
+				return true
+			}
+			return false
+		})
+		if s.aborting {
+			s.unwind(s.cur)
+			return -1
+		}
+		if fired < 0 || !caseReady(fired) {
 			panic("vrt: select resumed without a ready case")
 		}
-		return -1
-	}
-	k := 0
-	if len(r) > 1 {
-		k = s.choose("select", len(r), true, func() string { return fmt.Sprintf("T%d select ready=%v", s.cur.ID, r) })
+		r = []int{fired}
 	}
 	i := r[k]
 	if s.hb != nil {
